@@ -720,8 +720,13 @@ def run_query(q, prop, findings):
         else:
             raise ValueError(q.kind)
     except Exception as e:
-        out = [dict(query=q.name, kind=q.kind, check="*", status="error", error=f"{type(e).__name__}: {e}",
-                    trace=traceback.format_exc()[-1500:])]
+        if "out of memory" in str(e):
+            # z3 hit the per-worker memory cap (VERIF_MEM_MB): the query is undecided, not broken
+            out = [dict(query=q.name, kind=q.kind, check="*", K=q.K, status="unknown",
+                        reason=f"z3 memory limit ({os.environ.get('VERIF_MEM_MB', '9000')} MB) reached")]
+        else:
+            out = [dict(query=q.name, kind=q.kind, check="*", status="error", error=f"{type(e).__name__}: {e}",
+                        trace=traceback.format_exc()[-1500:])]
     for r in out:
         r["required"] = bool(q.required and r.get("required", True))
         r["wall_s"] = round(time.time() - t0, 2)
